@@ -269,11 +269,16 @@ pub fn gen_history(rng: &mut Rng, long: bool) -> Vec<Op> {
             10 => Op::Remove(h),
             11 => Op::Set(h, gen_val(rng)),
             12 => Op::Cookie(rng.below(4), rng.unicode_string(12), rng.below(64) as u8),
-            13 => Op::Text(rng.unicode_string(40)),
+            13 => if rng.chance(1, 6) && !crate::reqref::SMALL.load(std::sync::atomic::Ordering::Relaxed) { Op::Text("t".repeat((*rng.pick(&[1024usize, 4096, 8192]) + rng.below(3)).saturating_sub(1))) } else { Op::Text(rng.unicode_string(40)) },
             14 => Op::TextStatic(rng.below(8)),
             15 => Op::Html(format!("<p>{}</p>", rng.unicode_string(20))),
             16 => Op::Json(rng.unicode_string(20)),
-            17 => { let k = *rng.pick(&[0usize, 1, 7, 100, 5000]); Op::Payload(rng.below(3), rng.bytes(k)) }
+            17 => {
+                // body sizes around the sizes at which an implementation might switch strategy (powers of two, buffer sizes), each +-1
+                let k = if rng.chance(1, 2) { *rng.pick(&[0usize, 1, 7, 100, 5000]) } else { (*rng.pick(&[256usize, 1024, 2048, 4096, 8192, 16384, 65536]) + rng.below(3)).saturating_sub(1) };
+                let k = if crate::reqref::SMALL.load(std::sync::atomic::Ordering::Relaxed) { k.min(1030) } else { k };
+                Op::Payload(rng.below(3), rng.bytes(k))
+            }
             18 => Op::DropContent,
             19 => Op::WithoutContent,
             20 => Op::Status(*rng.pick(&STATUSES)),
@@ -342,6 +347,7 @@ fn build_response(ops: &[Op]) -> Response {
 
 pub fn run(args: &Args, rep: &mut Report) {
     let small = args.flag("small").is_some();
+    crate::reqref::SMALL.store(small, std::sync::atomic::Ordering::Relaxed);
     // the application: one route whose handler builds the response from the current history
     let router = hook::Router::new(ohkami::Ohkami::new(("/r".GET(|| {
         let ops = CURRENT.with(|c| c.borrow().clone());
